@@ -35,13 +35,15 @@ fn build_root() -> Context<'static> {
     ctx
 }
 
-const P18: [&str; 26] = [
+const P18: [&str; 28] = [
     "xs + [9]", "xs + ys", "xs + xs", "(xs + ys) + xs", "e + xs", "s + 'c'", "s + s", "es + s", "xs.map(v, v + 1)", "xs.filter(v, v > 1)", "n.map(l, l + [0])", "n[0] + n[1]",
     "m.k + [2]", "m.map(k, m[k] + [5])", "[xs, xs]", "{'a': xs}", "r0 + [7]", "r0 + r0",
     // a macro that fails in the middle of its loop, and macros that read a same-named outer
     // variable / an undeclared name afterwards (stale state of an aborted evaluation)
     "xs.map(v, 10 / (v - 2))", "ys.map(w, v + w)", "xs.filter(u, 10 / (u - 2) > 0)", "ys.map(w, [w, u])",
     // built-ins that could memoise (regex, conversions): different arguments in one history
+    // a macro variable named like a context variable that is read again after the macro
+    "[1, 2].map(r0, r0 * 2) + r0", "xs.map(v, v + 1) + [v]",
     "s.matches('^a')", "s.matches('b$') && !s.matches('^b')", "[string(xs[0]), string(xs[1]), s + string(v)]", "size(xs + ys) + size(s + s)",
 ];
 
@@ -144,7 +146,10 @@ impl PartA {
                     if let Some(v) = &r0 {
                         fresh.add_variable_from_value("r0", v.to_value());
                     }
-                    let o3 = subj::exec(&self.progs[*p], &fresh);
+                    // ... with a freshly compiled program, so that state hidden inside the shared
+                    // Program object (a result cache) cannot make both sides agree
+                    let fresh_prog = Program::compile(P18[*p]).expect("compiles");
+                    let o3 = subj::exec(&fresh_prog, &fresh);
                     run.trans(1);
                     if o1 != o3 {
                         return Err(("differs-from-fresh-context".into(), format!("step {}: `{}` gave {} in this history but {} on a fresh context with equal variables", step, P18[*p], o1.show(), o3.show())));
@@ -344,7 +349,7 @@ fn part_a(run: &mut Run) {
 // ---------------------------------------------------------------------------
 // (B) schedules
 
-const P8: [&str; 10] = [
+const P8: [&str; 11] = [
     "[xs + [9, me], sc()][0]",
     "[[me, xs[0]], sc()][0]",
     "[{'a': xs, 'b': me}, sc()][0]",
@@ -355,6 +360,7 @@ const P8: [&str; 10] = [
     "[max(xs[0], me, xs[1]), sc()][0]",
     "[[s.matches('^a'), s.matches('^b'), me], sc()][0]",
     "[[s.matches('b$'), string(me) + s, s.matches('^b')], sc()][0]",
+    "[[1, 2].map(me, me * 2) + [me], sc()][0]",
 ];
 
 struct PartB {
@@ -395,7 +401,8 @@ impl PartB {
         for t in 0..nthreads {
             let mut inner = root.new_inner_scope();
             inner.add_variable_from_value("me", Value::Int(t as i64 + 1));
-            solo.push(progs.iter().map(|p| subj::exec(p, &inner)).collect());
+            // solo results come from freshly compiled programs (not the shared objects)
+            solo.push(P8.iter().map(|s| subj::exec(&Program::compile(s).expect("P8 compiles"), &inner)).collect());
         }
         side.lock().unwrap().clear();
         let baseline_counts = strong_counts(&root);
